@@ -2,12 +2,14 @@
 // that picks up another collection's file does not compile.
 fn main() {
     let out = std::env::var("OUT_DIR").unwrap();
-    let cases: [(&str, &str); 5] = [
+    let cases: [(&str, &str); 6] = [
         ("collection", "[1,2]"),          // pub type ArrayOfNumber = Vec<f64>;
         ("a.b", "[\"x\"]"),               // pub type ArrayOfStr = Vec<String>;
         ("my-shapes", "[true]"),          // pub type ArrayOfBool = Vec<bool>;
         ("v1.2.3", "[[1]]"),              // pub type ArrayOfArrayOfNumber = Vec<Vec<f64>>;
         ("x", "\"s\""),                   // pub type Str = String;
+        // structs with non-ASCII (legal) field names, nested objects, a tuple and an optional member: only compiled
+        ("names", "[{\"caf\u{e9}\":1,\"gr\u{f6}\u{df}e\":{\"na\u{ef}ve\":true},\"\u{540d}\u{524d}\":[\"x\",\"y\"],\"pos\":[1.5,\"N\"]},{\"caf\u{e9}\":2}]"),
     ];
     for (name, src) in cases {
         let p = std::path::Path::new(&out).join(format!("src_{}.json", name.replace('.', "_")));
